@@ -159,6 +159,43 @@ fn workload(dir: &str, name: &str) -> lsm_tree::Result<()> {
                 std::process::exit(7);
             }
         }
+        // FIFO drops every table of a key-value separated tree, reopen (blob file ids restart), new data, FIFO
+        // drops the oldest table only: the retained tables' values must stay readable (C19 / C20 / C09)
+        "fifo-blob-id-reuse" => {
+            let big = vec![b'x'; 64];
+            {
+                let tree = open(dir, true)?;
+                for i in 0..2u8 {
+                    tree.insert([b'a', i].as_slice(), &big, u64::from(i));
+                    tree.flush_active_memtable(0)?;
+                }
+                tree.compact(Arc::new(lsm_tree::compaction::Fifo::new(1, None)), 0)?;
+                println!("AFTER_DROP_ALL tables={} blob_files={}", tree.table_count(), tree.blob_file_count());
+            }
+            let tree = open(dir, true)?;
+            for i in 0..3u8 {
+                tree.insert([b'b', i].as_slice(), &big, 10 + u64::from(i));
+                tree.flush_active_memtable(0)?;
+            }
+            let size = tree.disk_space();
+            tree.compact(Arc::new(lsm_tree::compaction::Fifo::new(size - 1, None)), 0)?;
+            println!("AFTER_DROP_OLDEST tables={} blob_files={}", tree.table_count(), tree.blob_file_count());
+            let mut lost = 0;
+            for i in 1..3u8 {
+                let r = std::panic::catch_unwind(std::panic::AssertUnwindSafe(|| tree.get([b'b', i].as_slice(), SeqNo::MAX)));
+                match r {
+                    Ok(Ok(Some(v))) if v.len() == 64 => println!("GET b{i} ok"),
+                    other => {
+                        println!("GET b{i} LOST: {:?}", other.map(|x| x.map(|y| y.map(|z| z.len()))));
+                        lost += 1;
+                    }
+                }
+            }
+            if lost > 0 || tree.blob_file_count() < tree.table_count() {
+                println!("DEMONSTRATED: a retained table's blob file was dropped by a FIFO compaction");
+                std::process::exit(7);
+            }
+        }
         // FIFO drop whose version GC fails (old version file replaced by a directory => unlink fails)
         "fifo-gc-fail" => {
             let tree = open(dir, false)?;
